@@ -66,6 +66,13 @@ def _preprocess_dde_syntax(rhs: str) -> str:
         delay = match.group(2).strip()
         if varname in _DDE_EXCLUDE:
             return match.group(0)
+        if '+' in delay or '-' in delay:
+            # x(t - a - b) reads x at t - (a + b): the delay is the negative of everything that follows `t`
+            delay = f'-(-{delay})'
+            try:
+                delay = repr(float(sympify(delay)))
+            except Exception:
+                pass
         return f'past({varname}, {delay})'
     return _DDE_PATTERN.sub(_replace, rhs)
 
